@@ -54,6 +54,11 @@ WITNESSES = {
         "  integer function system(n)\n    integer :: n\n    system = n\n  end function system\n"
         "  subroutine test()\n    integer :: i\n    call wait(3)\n    i = system(2)\n  end subroutine test\nend module m\n",
         ("m", "test"), {"@m.wait", "@m.system"}),
+    "keyword-named-procedure": (
+        "module m\n  implicit none\ncontains\n  subroutine wait(n)\n    integer :: n\n  end subroutine wait\n"
+        "  subroutine test()\n    open (10, file='x', asynchronous='yes')\n    wait (10)\n    close (10)\n"
+        "  end subroutine test\nend module m\n",
+        ("m", "test"), set()),
     "labelled-call-without-arguments": (
         HEAD + "  subroutine test()\n    integer :: i\n    i = 1\n10  call sub0\n  end subroutine test\nend module m\n",
         ("m", "test"), {"@m.sub0"}),
@@ -84,13 +89,14 @@ WITNESSES = {
     "typed-external-function": (
         "subroutine test()\n  implicit none\n  integer :: ef, i\n  i = ef(3)\nend subroutine test\n"
         "integer function ef(n)\n  integer :: n\n  ef = n\nend function ef\n",
-        ("test",), {"ef"}),
+        ("test",), {"@ef"}),
 }
 
 
 # repaired in FORD: a witness that fails again is a regression (harness: failing-input VIOLATION)
 FIXED = {"same-last-component", "labelled-call-without-arguments", "format-without-blank", "associate-expression-selector",
-         "sibling-variable-hides-procedure", "associate-function-selector-crash", "goto-pattern-unanchored"}
+         "sibling-variable-hides-procedure", "associate-function-selector-crash", "goto-pattern-unanchored",
+         "typed-external-function", "intrinsic-named-procedure"}
 
 
 def obj_path(o):
